@@ -345,12 +345,12 @@ impl EnumFold for Vec<Vec<u8>> {
         assert(!empty_before_last(parts));
         assert(i@ =~= i0.skip(n + 1 + d.0 + y.0));
     }
-//@ insert before "let n = mid_final.len();"
+//@ insert before-let n
         proof {
             if d.1.len() == 0 { assert(trees(inner@, inner@.len()) =~= Seq::<T>::empty()); }
             else { tree_lemmas::lemma_trees1(inner@, 1); assert(trees(inner@, inner@.len()) =~= seq![t_ctx_p(0, d.1)]); }
         }
-//@ insert after "let n = mid_final.len();"
+//@ insert after-let n
         let ghost pre = trees(inner@, inner@.len());
         let ghost mut done = false;
 //@ loop 1 iter=it
